@@ -2405,7 +2405,21 @@ def oracle_C15(case, **opts):
     has_join = any(st.get("call") == "natural_join" for st in P.pipe_steps(case["pipe"]))
     # join pipelines get more renamings: the executors' suffix conventions (`<c>_tmp_right_col`, `<c>_da_right_tmp`, …) only
     # matter for particular pairs of names on particular sides
-    for trial in range(max(opts.get("renamings", 3), 6) if has_join else opts.get("renamings", 3)):
+    # role-directed draws: a scratch name may be harmless in one role of a step and harmful in another (an order column is read
+    # before the stand-in column is written, a partition column is not), so every role gets its turn
+    roles = {"order": [], "partition": [], "group": []}
+    for st in P.pipe_steps(case["pipe"]):
+        if st.get("call") == "extend":
+            roles["order"] += [c for c in (st.get("order_by") or []) if c in cols]
+            if isinstance(st.get("partition_by"), list):
+                roles["partition"] += [c for c in st["partition_by"] if c in cols]
+        elif st.get("call") == "project":
+            roles["group"] += [c for c in (st.get("group_by") or []) if c in cols]
+    role_names = [k for k in ("order", "partition", "group") if roles[k]]
+    n_trials = opts.get("renamings", 3)
+    if has_join or role_names:
+        n_trials = max(n_trials, 6)
+    for trial in range(n_trials):
         reserved = trial % 2 == 1 or opts.get("reserved_only", False)
         cm, tm = {}, {}
         used = {v.lower() for v in fc.values()} | {c.lower() for c in cols}
@@ -2422,6 +2436,15 @@ def oracle_C15(case, **opts):
                 new += "z"
             used.add(new.lower())
             cm[c] = new
+        if reserved and role_names and rng.random() < 0.7:
+            rc_exact = [x for x in RESERVED_COLUMNS if x.lower() not in used]
+            role = role_names[(trial // 2) % len(role_names)]
+            if rc_exact:
+                c0 = rng.choice(sorted(set(roles[role])))
+                new = rng.choice(rc_exact)
+                used.discard(cm[c0].lower())
+                used.add(new.lower())
+                cm[c0] = new
         if reserved and len(cols) >= 2 and rng.random() < (0.9 if has_join else 0.6):
             # a suffix name built on the NEW name of another column (`<stem>` + `_tmp_right_col` next to a column `<stem>`):
             # the executors' suffix conventions only matter relative to the names actually present
